@@ -5,16 +5,10 @@
 #include "pgm/pgm_index.hpp"
 #include <cstdint>
 #include <cstddef>
-#ifndef KEY
-#define KEY uint8_t
-#define EPS 1
-#define EPSREC 1
-#define FLT float
-#endif
-extern "C" __attribute__((noinline)) int u_pgm_e2e(const KEY *d, size_t n, KEY q, size_t *out) {
+extern "C" __attribute__((noinline)) int u_pgm_e2e(const KEY *d, size_t n, const KEY *q, size_t *out) {
     try {
         pgm::PGMIndex<KEY, EPS, EPSREC, FLT> idx(d, d + n);
-        auto r = idx.search(q);
+        auto r = idx.search(*q);
         out[0] = r.pos; out[1] = r.lo; out[2] = r.hi; out[3] = idx.segments_count(); out[4] = idx.height();
         return 0;
     } catch (const std::invalid_argument &) { return 1; }
